@@ -34,3 +34,21 @@ impl<TId, TValue> Arena<TId, TValue> {
         ensures *r == self.spec_index(id),
     { unimplemented!() }
 }
+
+/// elsa::FrozenMap: insert-only map handing out references to its (boxed, hence stable) values
+#[verifier::external_body]
+#[verifier::reject_recursive_types(K)]
+#[verifier::reject_recursive_types(V)]
+pub struct FrozenMap<K, V> { _p: core::marker::PhantomData<(K, V)> }
+impl<K, V> FrozenMap<K, V> {
+    pub uninterp spec fn spec_get(&self, k: K) -> Option<V>;
+    #[verifier::external_body]
+    pub fn get(&self, k: &K) -> (r: Option<&V>)
+        ensures match r { Some(v) => self.spec_get(*k) == Some(*v), None => self.spec_get(*k) is None },
+    { unimplemented!() }
+    /// the effect of inserting behind `&self` cannot be stated; the returned reference is to the inserted value
+    #[verifier::external_body]
+    pub fn insert(&self, k: K, v: V) -> (r: &V)
+        ensures *r == v,
+    { unimplemented!() }
+}
